@@ -84,7 +84,7 @@ def state_key(steps) -> list:
 class SessionProperty:
     engine = "session"
 
-    def __init__(self, pid: str, *, profile="edit", scoped_bias=0.15, fail=None, quick_runs=6000, thorough_runs=120000):
+    def __init__(self, pid: str, *, profile="edit", scoped_bias=0.15, fail=None, quick_runs=30000, thorough_runs=600000):
         self.pid = pid
         self.profile = profile
         self.scoped_bias = scoped_bias
@@ -124,7 +124,7 @@ class SessionProperty:
             for start in range(0, len(lines), size):
                 new_lines = lines[:start] + lines[start + size:]
                 doc = "\n".join(new_lines)
-                if doc != case["doc"] and not reader.Doc(doc).has_error() and doc.strip():
+                if doc != case["doc"] and not reader.Doc(doc).has_error() and not reader.EMPTY_LET.search(doc) and doc.strip():
                     c = dict(case)
                     c["doc"] = doc
                     yield c
@@ -175,7 +175,13 @@ class C11(SessionProperty):
                 ops.append({"op": "restart"})
             tag += 1
             probe = rng.choice(prog["probes"])
-            value = str(tag) if rng.random() < 0.8 else rng.choice(['"v%d"' % tag, "[ %d ]" % tag])
+            r = rng.random()
+            if r < 0.6:
+                value = str(tag)
+            elif r < 0.75:
+                value = rng.choice(['"v%d"' % tag, "[ %d ]" % tag])
+            else:
+                value = rng.choice(scopegen.NAMES)  # write a *reference*: a new link of a chain
             kind = "set" if rng.random() < 0.8 else "assign"
             ops.append({"op": kind, "path": ".".join(probe), "value": value})
         return {"prop": "C11", "engine": "session", "seed": seed, "tier": tier, "cfg": {}, "doc": prog["text"], "ops": ops}
@@ -195,6 +201,36 @@ class C05(SessionProperty):
 
 
 class C06(SessionProperty):
+    """Session histories plus zoo start states (one construct per document, random gap shapes)."""
+
+    def generate(self, seed: int, tier: str) -> dict:
+        st = Streams(seed)
+        if st("kind").random() < 0.4:
+            from . import zoo
+
+            z = zoo.Zoo(st("zoo"), seed % 9000 + 1000)
+            text, facts = z.document()
+            ops = [{"op": "set", "path": "zz9", "value": "1"}] if st("kind").random() < 0.5 else []
+            return {"prop": "C06", "engine": "session", "seed": seed, "tier": tier, "cfg": {}, "doc": text, "ops": ops, "zoo": facts}
+        return SessionProperty.generate(self, seed, tier)
+
+    def execute(self, case: dict):
+        if not case.get("zoo"):
+            return SessionProperty.execute(self, case)
+        stats = {"zoo_docs": 1, "zoo:" + case["zoo"]["construct"]: 1}
+        if reader.Doc(case["doc"]).has_error():
+            stats["skip:zoo_invalid"] = 1
+            return [], stats, []
+        steps = session.run_history(case["doc"], case["ops"])
+        viols = session.oracle_c06(case["doc"], steps)
+        for v in viols:
+            v.facts.update({k: case["zoo"][k] for k in case["zoo"] if k != "gap_seq"})
+            v.facts["zoo"] = True
+        stats["ops"] = len(steps)
+        from .core import digest
+
+        return viols, stats, [digest([case["zoo"]["construct"], case["zoo"]["place"], case["zoo"]["gap_seq"]])]
+
     def oracles(self, case, steps):
         return session.oracle_c06(case["doc"], steps)
 
